@@ -222,6 +222,15 @@ func (o *ExpressionOptimizer) tryOptimizeAndOr(expr Expression) (Expression, boo
 		rightVal = right.Bool
 	}
 
+	// An operand with an aggregate function call cannot be thrown away: the
+	// field would stop being an aggregate field (false & count(1) > 0)
+	if leftIsValue && !rightIsValue && leftVal == (e.Op == Or) && containsAggrFunc(e.Right) {
+		return e, false
+	}
+	if rightIsValue && !leftIsValue && rightVal == (e.Op == Or) && containsAggrFunc(e.Left) {
+		return e, false
+	}
+
 	if leftIsValue && !rightIsValue {
 		switch e.Op {
 		case And:
@@ -280,6 +289,15 @@ func (o *ExpressionOptimizer) tryOptimizeAndOr(expr Expression) (Expression, boo
 	}
 
 	return e, false
+}
+
+func containsAggrFunc(expr Expression) bool {
+	found := false
+	expr.Walk(func(e Expression) bool {
+		found = found || IsAggrFuncExpr(e)
+		return !found
+	})
+	return found
 }
 
 func (o *ExpressionOptimizer) tryOptimizeFunctionCall(e *FunctionCallExpr) (Expression, bool) {
